@@ -9,7 +9,7 @@ PROPS = {
                        "necessary conditions of C13: no false verdict is dropped between do_validate/do_compile/visit_ucg_files "
                        "and the exit status (R57), the assertion collector shared through the Environment is re-initialised "
                        "per file (R58), every path through the assert hook records a result with the right polarity (R59), and "
-                       "verdict polarity / exit(1) wiring (R60). Not decided: the printed text. Added later: R57 Err edges, R58e (build evaluates the file). Third session: R57, R60 and the collector half of R59 are decided by three-valued abstract interpretation of the MIR (ucgverif/absint.py): one result is forced negative on one visit and the caller's outcomes on every path that saw it must be negative (sticky), verdict-carrying wrappers and closures are discovered, iterator adaptors and `?` are modelled, an unmodelled sink of the value gives `cannot decide`; R59's hook half runs on the flat view (private helpers spliced in).",
+                       "verdict polarity / exit(1) wiring (R60). Not decided: the printed text. Added later: R57 Err edges, R58e (build evaluates the file). Third session: R57, R60 and the collector half of R59 are decided by three-valued abstract interpretation of the MIR (ucgverif/absint.py): one result is forced negative on one visit and the caller's outcomes on every path that saw it must be negative (sticky), verdict-carrying wrappers and closures are discovered, iterator adaptors and `?` are modelled, an unmodelled sink of the value gives `cannot decide`; R59's hook half runs on the flat view (private helpers spliced in). R57 also: inside the collector's statement loop every path on which an assertion was negative passes the bookkeeping that records it (evaluated, visited-after-fired).",
         "assumptions": ["rustc MIR construction and callee resolution (Instance::try_resolve)",
                         "panicking paths are not normal exits (covered by C04)"],
     },
@@ -32,7 +32,7 @@ PROPS = {
                        "(FileBuilder::build, Builtins::import) to the file's evaluation; the memo discipline of the op, value "
                        "and shape caches is checked on the CFG (R48m: insert only on the vacant/miss edge after success, never "
                        "shrunk); R57 (verdict propagation) covers `build -r`. Not decided: byte equality of artifacts; "
-                       "positions stored inside cached import shapes. Added later: R48k (the three out-lock functions and the import hook's call sites agree on the key).",
+                       "positions stored inside cached import shapes. Added later: R48k (the three out-lock functions and the import hook's call sites agree on the key). R26l (shared with C09): inside the link loop only 'already linked in this walk' may skip loading a link - no question put to a cache that all files of the invocation share.",
         "assumptions": ["state that outlives a file lives in Environment (statics: only the reserved-word LazyLock, immutable)",
                         "the repl is outside the property's quantifier"],
     },
@@ -54,7 +54,7 @@ PROPS = {
                        "SafeIndex true, the safe edge yields NULL and the strict edge an error (R45); std::env::vars is read once "
                        "in main and flows only into the Environment, env_vars has no later writer, the env tuple is built from it "
                        "alone and a local symbol named env wins (R46); `env` aborts both binding forms in the parser (R47). "
-                       "Not decided: the values of variables as strings (OS encoding). Added later: R45s (strictness handed down unchanged to every function that stores or forwards a strict flag).",
+                       "Not decided: the values of variables as strings (OS encoding). Added later: R45s (strictness handed down unchanged to every function that stores or forwards a strict flag). R46 also: the closure that turns std::env::vars() into the env tuple neither filters nor rewrites the pairs.",
         "assumptions": ["Value::type_name returns a &'static str that names the kind only (checked: body has only constant arms)"],
     },
     "C10": {
@@ -75,7 +75,7 @@ PROPS = {
                        "and of the checker's resolve_import on the CFG (normalise, cache, cycle test, in-progress mark before run, "
                        "cache after run). R27: std::env::current_dir unreachable from the import/include/translate/check paths "
                        "(call graph). R68: rewriter arms and provenance of its base directory. Not decided: filesystem behaviour, "
-                       "equality of values across builds; format template expressions are parsed after the rewrite (noted). Added later: R25p, R26c normalised keys and child directory, R26l (link_ops), R26v (every nested VM run gets the import stack), R27n (normalize is total), R68 helper-aware with import-only std exemption and late-parsed format expressions.",
+                       "equality of values across builds; format template expressions are parsed after the rewrite (noted). Added later: R25p, R26c normalised keys and child directory, R26l (link_ops), R26v (every nested VM run gets the import stack), R27n (normalize is total), R68 helper-aware with import-only std exemption and late-parsed format expressions. R26l also: inside the link loop only 'already linked in this walk' may skip loading a link.",
         "assumptions": ["the parser never stores an import inside CallDef.funcref / CopyDef.selector (Value from a selector)"],
     },
     "C08": {
@@ -86,7 +86,7 @@ PROPS = {
                        "first). R23: no success return inside any per-field/per-item loop. R24 (exhaustive over Val variants, "
                        "per-variant path analysis): the env converter never writes NAME= without value and newline; separators of all "
                        "writes. Not decided: what /bin/sh reconstructs (POSIX quoting rules are the trusted base); field names are "
-                       "written raw (the property speaks of values). Added later: R22 also refuses any rewriting of the quoted text outside the helper.",
+                       "written raw (the property speaks of values). Added later: R22 also refuses any rewriting of the quoted text outside the helper. R24 also: every path through a field of the env converter that returns Ok has written the value after the name.",
         "assumptions": ["POSIX: inside '..' only ' is special and '\\'' yields it; inside \"..\" exactly \\ \" $ ` are special"],
     },
     "C03": {
@@ -96,7 +96,7 @@ PROPS = {
                        "variants the format cannot represent, non-finite float -> Err in JSON. R64: every loop iteration adds the "
                        "element or fails the conversion; append-only forward iteration. R12: `---` before every yamlmulti document. "
                        "R70: no Val payload hand-formatted into the output. Not decided: that serde_json / serde_yaml / toml emit "
-                       "valid text that an independent decoder reads back. Added later: R12b (the YAML text is exactly the serializer's document), R64 on iterator pipelines, R64v (value lowering keeps every field and element), R49t (artifact opened truncating).",
+                       "valid text that an independent decoder reads back. Added later: R12b (the YAML text is exactly the serializer's document), R64 on iterator pipelines, R64v (value lowering keeps every field and element), R49t (artifact opened truncating). R11 also: every scalar kind of the lowered value is written by the converter arm of the same kind.",
         "assumptions": ["serde_json, serde_yaml and toml serialise their own value types correctly"],
     },
     "C12": {
@@ -105,7 +105,7 @@ PROPS = {
                        "R69: start/end element pairing on every successful path. R62: error table per Val variant and for missing "
                        "root, bad version, name+text. R90: namespace and version tables. R63: NULL parts are skipped before any "
                        "getter / attr(). Not decided: escaping, namespace prefixing and indentation behaviour of xml-rs; equality "
-                       "of the re-parsed tree; a root tuple without name and text writes nothing (noted in DESIGN.md). Added later: R62 name-and-text decided path-sensitively, R69v (strings verbatim), R63e (is_empty true for NULL only).",
+                       "of the re-parsed tree; a root tuple without name and text writes nothing (noted in DESIGN.md). Added later: R62 name-and-text decided path-sensitively, R69v (strings verbatim), R63e (is_empty true for NULL only). R61 also: a bare string child reaches the writer as text; R90 also: the element name written does not depend on whether a namespace was given.",
         "assumptions": ["xml-rs escapes markup-significant characters in characters() and attribute values"],
     },
     "C02": {
@@ -128,7 +128,7 @@ PROPS = {
                        "u8->char cast reaches token text. R73: every Token's pos comes from Position::from of an unconsumed clone of "
                        "the recogniser's input (59 sites). R74: WS/COMMENT never pushed to the output. R86 (exhaustive): escape table = "
                        "documented escapes. Not decided: column semantics for non-ASCII text (byte columns), token-stream equality "
-                       "across layouts as a whole; keyword-like prefixes of words (`truex`, `NULLx`) are noted, not claimed. Added later: R74l (no parser function compares token positions).",
+                       "across layouts as a whole; keyword-like prefixes of words (`truex`, `NULLx`) are noted, not claimed. Added later: R74l (no parser function compares token positions). R72 also decides that a count of characters is never used as a byte offset; R72s: the text handed to the tokenizer is the text read from the file, unmodified.",
         "assumptions": ["abortable_parser's text_token! consumes exactly the literal it is given"],
     },
     "C06": {
@@ -141,7 +141,7 @@ PROPS = {
                        "the two listed paths, checker records a narrow TypeErr and a non-empty error stack stops the build. R20: named "
                        "constraints go through the same lowering and are expanded before comparison. R66: subset test in both "
                        "directions. Not decided: the shape-compatibility relation (narrow) itself; recursive constraints are outside "
-                       "the property's quantifier. Added later: R66s (list subset false only from the element loop), R18e (equality compares lengths), R20m (memo hit needs exact equality), R19n (module nesting is counted); R19 reports the two unchecked bypasses (F35, F39 known).",
+                       "the property's quantifier. Added later: R66s (list subset false only from the element loop), R18e (equality compares lengths), R20m (memo hit needs exact equality), R19n (module nesting is counted); R19 reports the two unchecked bypasses (F35, F39 known). R66s also: a found-flag set by an inner loop and tested by the enclosing loop is cleared for every element (no stale flag).",
         "assumptions": ["Val::equal is structural equality (unit-tested)"],
     },
     "C07": {
@@ -151,7 +151,7 @@ PROPS = {
                        "Shape variants have a path that does not return TypeErr), by per-variant path analysis; required: VM set "
                        "(mapped kind -> shape) is a subset of the checker set. R21a: map/filter/reduce targets; R21b: the forms the "
                        "translator lowers after `.` on a tuple / resolved import; R21c: copy bases and `not`. Not decided: "
-                       "completeness of the checker in general (value-level rules of narrow, e.g. `[1] + [\"a\"]`). Added later: R21b for partly known left shapes, R21h (F33 known), R21p (with_pos preserves variant and kind of knowledge), R25p (visit/leave pairing). Third session: R21a/R21c also require partly known shapes (Hole, Narrowed[Any], Narrowed[candidates]) to pass every dispatch (F45 fixed); R21s parameters are layered over the enclosing scope in FuncDef::derive_shape (F42 fixed); R21d every result-carrying sub-expression (select branches and default, func body, module out) flows into the derived shape (F44 fixed); R21n a callee's open parameter shapes are not narrowed in the caller's table (F43 known).",
+                       "completeness of the checker in general (value-level rules of narrow, e.g. `[1] + [\"a\"]`). Added later: R21b for partly known left shapes, R21h (F33 known), R21p (with_pos preserves variant and kind of knowledge), R25p (visit/leave pairing). Third session: R21a/R21c also require partly known shapes (Hole, Narrowed[Any], Narrowed[candidates]) to pass every dispatch (F45 fixed); R21s parameters are layered over the enclosing scope in FuncDef::derive_shape (F42 fixed); R21d every result-carrying sub-expression (select branches and default, func body, module out) flows into the derived shape (F44 fixed); R21n a callee's open parameter shapes are not narrowed in the caller's table (F43 known). R21q: with one candidate's comparison forced to a fitting shape and the others unknown, narrow_cached builds no TypeErr (evaluated; one fitting candidate is enough).",
         "assumptions": ["runtime kind -> Shape variant map of impl DeriveShape for Value (List->List, Tuple->Tuple, Str->Str)"],
     },
     "C17": {
@@ -162,7 +162,7 @@ PROPS = {
                        "caller's position on the Err edge. R39: provenance of the position of every Error::new in vm.rs/runtime.rs "
                        "from an operand / parameter / op pointer; inventory of Position::new users. R92: line/column/offset wiring "
                        "from the input iterator through parser errors to the printed diagnostic. Not decided: that the reported line "
-                       "lies inside the right statement for a given input; errors inside imported files. Added later: R38 frame-position and result-position provenance (also through a forwarding helper), R39c (checker mismatches are anchored where the operands meet).",
+                       "lies inside the right statement for a given input; errors inside imported files. Added later: R38 frame-position and result-position provenance (also through a forwarding helper), R39c (checker mismatches are anchored where the operands meet). R39s: every VM::push in vm.rs / runtime.rs takes its position from a popped entry, the handler's pos parameter or the op pointer, never out of the position list stored inside a value (definition chain, stops at pop).",
         "assumptions": ["abortable_parser's line()/column() count from the start of the input"],
     },
     "C01": {
@@ -220,7 +220,7 @@ PROPS = {
                        "else; analyze cannot see the documents map. R42: analyze uses the compiler's tokenize and parse, exactly one "
                        "diagnostic per front-end error from the error's own position. R89: provenance of everything written into the "
                        "workspace cache. Not decided: range containment (UTF-16 vs byte columns), equality of diagnostics with a fresh "
-                       "server as values, messages with malformed parameters (they end the server with an error, outside the quantifier). Added later: R41 for the workspace index (every update replaces the entry), R76x (F40 known).",
+                       "server as values, messages with malformed parameters (they end the server with an error, outside the quantifier). Added later: R41 for the workspace index (every update replaces the entry), R76x (F40 known). R89t: topo_sort_files marks a file visited when its stack entry is expanded, not when it is queued, and emits it when the entry comes back (necessary for dependencies to be analysed before their importers).",
         "assumptions": ["lsp-server / lsp-types / serde_json do not panic on well-formed messages"],
     },
 }
